@@ -136,6 +136,17 @@ def decoy(rng, build, p=0.3):
     return True
 
 
+def decoy_after(rng, build, p=0.3):
+    """With probability p, construct (not elaborate) another instance with DIFFERENT parameters after the monitored
+    one was constructed and before it is elaborated: per-class configuration must not leak between instances."""
+    if rng.random() >= p:
+        return None
+    try:
+        return build()
+    except Exception:
+        return None
+
+
 def bits(rng, width):
     return rng.getrandbits(width) if width > 0 else 0
 
